@@ -109,7 +109,8 @@ type stressOut struct {
 	ProducersBlocked int      `json:"producers_blocked"`
 	Requests         int      `json:"requests"`
 	PerioQueries     int      `json:"perio_queries"`
-	Blocked          []string `json:"blocked"` // call sites of goroutines still blocked in channel operations when the wait group did not finish
+	ShutdownMs       int      `json:"shutdown_ms"` // how long the goroutines took to end after the shutdown sequence
+	Blocked          []string `json:"blocked"`     // call sites of goroutines still blocked in channel operations when the wait group did not finish
 }
 
 func stressOne(f *fixture, c stressCase) stressOut {
@@ -369,12 +370,35 @@ func stressOne(f *fixture, c stressCase) stressOut {
 	}
 	done := make(chan struct{})
 	go func() { wg.Wait(); close(done) }()
-	select {
-	case <-done:
-		out.WgDone = true
-	case <-time.After(5 * time.Second):
-		out.Blocked = blockedSites()
+	// The goroutines must end.  With millisecond tickers and a consumer slowed down by the race detector the periodic
+	// server can be behind by thousands of queued ticks when Close is posted (ticks are not coalesced), and it serves them
+	// all before it reaches the Close event: that is slow, not stuck.  So the wait goes on for as long as the periodic
+	// server keeps serving queued ticks (its query counter advances), and gives up - "did not terminate" - after 5 s
+	// without any progress, or after 120 s in any case.
+	progress := func() int64 {
+		if pdp != nil {
+			return atomic.LoadInt64(&pdp.queries)
+		}
+		return 0
 	}
+	last, lastAt, start := progress(), time.Now(), time.Now()
+wait:
+	for {
+		select {
+		case <-done:
+			out.WgDone = true
+			break wait
+		case <-time.After(200 * time.Millisecond):
+			if p := progress(); p != last {
+				last, lastAt = p, time.Now()
+			}
+			if time.Since(lastAt) > 5*time.Second || time.Since(start) > 120*time.Second {
+				out.Blocked = blockedSites()
+				break wait
+			}
+		}
+	}
+	out.ShutdownMs = int(time.Since(start) / time.Millisecond)
 	out.Sent = int(atomic.LoadInt64(&sent))
 	out.ProducerPanics = int(atomic.LoadInt32(&panics))
 	out.Requests = int(atomic.LoadInt32(&requests))
